@@ -317,3 +317,63 @@ Lemma station_select_pure0 : forall pre f0 seed g lv fam post,
   nth_error (fst (station_run (from_file f0) (pre ++ ESelect seed g lv fam :: post))) (length pre)
   = Some (Some (select seed (file_lookup (in_force f0 pre) g) lv fam)).
 Proof. intros. apply station_select_in_force; [apply from_file_lookup; assumption|assumption]. Qed.
+
+(* ---------- the merge variant, in general ---------- *)
+Lemma from_file_gen_sget : forall f s, NoDup (map fst f) -> Forall key_ok (map fst f) ->
+  (forall k, In k (map fst f) -> is_taken s (Z.to_N k) = false) ->
+  forall g, sget (fold_left ff f s) g = match file_lookup f g with Some c => Some (Some c) | None => sget s g end.
+Proof.
+  induction f as [|[k c] r IH]; cbn [fold_left file_lookup map fst]; intros s Hnd Hok Hfree g; [reflexivity|].
+  inversion Hnd as [|? ? Hnin Hnd']; subst. inversion Hok as [|? ? Hk Hok']; subst.
+  assert (Hs : ff s (k, c) = sset s (Z.to_N k) (Some c)).
+  { unfold ff, add_generation. cbn [fst snd].
+    rewrite (to_uint_ok _ Hk). rewrite (Hfree k (or_introl eq_refl)).
+    destruct (k =? -1)%Z eqn:E; [apply Z.eqb_eq in E; destruct Hk; lia|]. reflexivity. }
+  rewrite Hs. rewrite IH; [|assumption|assumption|].
+  - destruct (k =? Z.of_N g)%Z eqn:E.
+    + apply Z.eqb_eq in E. subst k. rewrite file_lookup_notin by assumption.
+      rewrite sget_sset. rewrite N2Z.id, N.eqb_refl. reflexivity.
+    + destruct (file_lookup r g); [reflexivity|].
+      rewrite sget_sset. destruct (Z.to_N k =? g) eqn:E2; [|reflexivity].
+      apply N.eqb_eq in E2. apply Z.eqb_neq in E. destruct Hk. exfalso. apply E. subst g. rewrite Z2N.id; lia.
+  - intros k' Hin. rewrite is_taken_sset. rewrite (Hfree k' (or_intror Hin)).
+    destruct (Z.to_N k =? Z.to_N k') eqn:E; [|reflexivity].
+    apply N.eqb_eq in E. exfalso. apply Hnin.
+    assert (key_ok k') as [? ?] by (rewrite Forall_forall in Hok'; apply Hok'; exact Hin).
+    destruct Hk. assert (k = k') by (apply Z2N.inj; lia). subst. exact Hin.
+Qed.
+
+Lemma merge_is_app : forall l held, fold_right (fun kv s => update_generation s (fst kv) (snd kv)) held l = l ++ held.
+Proof. induction l as [|[k v] r IH]; intro held; cbn [fold_right app fst snd]; [reflexivity|]. rewrite IH. reflexivity. Qed.
+
+Lemma sget_app : forall a b g, sget (a ++ b) g = match sget a g with Some v => Some v | None => sget b g end.
+Proof.
+  induction a as [|[k v] r IH]; intros b g; cbn [app sget]; [reflexivity|].
+  destruct (k =? g); [reflexivity|apply IH].
+Qed.
+
+(* whatever the two files: a reload that copies the new file's generations into the held selector gives the
+   generations of the new file their new configuration -- and keeps EVERY generation the new file dropped *)
+Lemma merge_reload_keeps_retired : forall f0 f1 g,
+  wellkeyed f0 -> wellkeyed f1 ->
+  lookup (reload_merge (from_file f0) (Some f1)) g
+  = match file_lookup f1 g with Some c => Some c | None => file_lookup f0 g end.
+Proof.
+  intros f0 f1 g H0 [Hnd Hok]. unfold reload_merge. rewrite merge_is_app. unfold lookup. rewrite sget_app.
+  unfold from_file at 1. change (fun s kc => fst (add_generation s (fst kc) (Some (snd kc)))) with ff.
+  rewrite from_file_gen_sget; try assumption; [|reflexivity].
+  destruct (file_lookup f1 g); [reflexivity|]. cbn [sget].
+  pose proof (from_file_lookup f0 H0 g) as H. unfold lookup in H. exact H.
+Qed.
+
+Lemma merge_reload_refuted : forall f0 f1 g c seed lv fam,
+  wellkeyed f0 -> wellkeyed f1 -> file_lookup f0 g = Some c -> file_lookup f1 g = None ->
+  nth_error (fst (merge_run (from_file f0) [EReload (Some f1); ESelect seed g lv fam])) 1 = Some (Some (select seed (Some c) lv fam)) /\
+  nth_error (fst (station_run (from_file f0) [EReload (Some f1); ESelect seed g lv fam])) 1 = Some (Some (Err EGeneration)).
+Proof.
+  intros f0 f1 g c seed lv fam H0 H1 Hc Hn. split.
+  - unfold merge_run. rewrite lrun_cons. cbn [fst nth_error lstep]. rewrite lrun_cons. cbn [fst nth_error lstep snd].
+    unfold sel_select. rewrite merge_reload_keeps_retired by assumption. rewrite Hn, Hc. reflexivity.
+  - unfold station_run. rewrite lrun_cons. cbn [fst nth_error lstep reload_replace]. rewrite lrun_cons. cbn [fst nth_error lstep snd].
+    unfold sel_select. rewrite (from_file_lookup f1 H1). rewrite Hn. reflexivity.
+Qed.
